@@ -245,9 +245,98 @@ class ConfigData(Suite):
         return repr(case)
 
 
+class UsesPaths(Suite):
+    """placeholders inside `tasks` entries and inside `uses` paths of configs and of contexts, in every accepted form (one string or a list,
+    with or without ` as <namespace>`, one or two levels deep): the file named after substitution is the one that
+    is used (runtime check with real files; the functional model covers the substitution itself)"""
+    name = 'uses_paths'
+    model = ''
+
+    def gen(self, rng, tier):
+        return ([dict(kind=k, form=f, ns=n, depth=d) for k in ('config', 'context') for f in ('scalar', 'list')
+                 for n in (False, True) for d in (1, 2)] +
+                [dict(kind='tasks', form=f, ns=False, depth=d) for f in ('scalar', 'list') for d in (1, 2)])
+
+    def run_impl(self, case):
+        import json as _json
+        import shutil
+        import tempfile
+        from pathlib import Path
+        from taskchain import Config
+        from .. import pipeline as pl
+        from ..suites_chain import K, P, CONSTRUCTION_ERRORS
+        tmp = Path(tempfile.mkdtemp(prefix='tcverif-c11-'))
+        classes = [dict(K(0, 'Leaf', params=[P('x')]), name='leaf')]
+        mod = pl.make_module(classes)
+        try:
+            sub = tmp / 'sub dir'
+            sub.mkdir()
+            ns = ' as n' if case['ns'] else ''
+
+            def wrap(ref):
+                return ref if case['form'] == 'scalar' else [ref]
+            gv = {'DIR': str(sub), 'NAME': 'inner'}
+            return self.build(case, tmp, sub, mod, wrap, ns, gv)
+        finally:
+            pl.drop_module(mod)
+            shutil.rmtree(tmp, ignore_errors=True)
+
+    def build(self, case, tmp, sub, mod, wrap, ns, gv):
+        import json as _json
+        from taskchain import Config
+        from .. import pipeline as pl
+        try:
+            if case['kind'] == 'tasks':
+                # the import string of the task (depth 2: a wildcard over the module) is written with a placeholder
+                gv = dict(gv, MOD=mod)
+                ref = '{MOD}.Leaf' if case['depth'] == 1 else '{MOD}.*'
+                cfg = Config(tmp / 'data', name='main', data={'tasks': wrap(ref), 'x': 5}, global_vars=gv)
+            elif case['kind'] == 'config':
+                # main -> {DIR}/mid.json [as n] (-> {DIR}/{NAME}.json when depth 2) declares the task with x = 5
+                leaf_doc = {'tasks': [f'{mod}.Leaf'], 'x': 5}
+                if case['depth'] == 2:
+                    (sub / 'inner.json').write_text(_json.dumps(leaf_doc))
+                    (sub / 'mid.json').write_text(_json.dumps({'uses': wrap('{DIR}/{NAME}.json')}))
+                else:
+                    (sub / 'mid.json').write_text(_json.dumps(leaf_doc))
+                cfg = Config(tmp / 'data', name='main', data={'uses': wrap('{DIR}/mid.json' + ns)}, global_vars=gv)
+            else:
+                # the config declares x = 0; the context uses {DIR}/ctx.json [as n] (-> {DIR}/{NAME}.json) which sets x = 5
+                val = {'x': 5}
+                if case['depth'] == 2:
+                    (sub / 'inner.json').write_text(_json.dumps(val))
+                    (sub / 'ctx.json').write_text(_json.dumps({'uses': wrap('{DIR}/{NAME}.json')}))
+                else:
+                    (sub / 'ctx.json').write_text(_json.dumps(val))
+                (sub / 'leafcfg.json').write_text(_json.dumps({'tasks': [f'{mod}.Leaf'], 'x': 0}))
+                data = {'uses': str(sub / 'leafcfg.json') + ns}
+                cfg = Config(tmp / 'data', name='main', data=data, context={'uses': wrap('{DIR}/ctx.json' + ns)}, global_vars=gv)
+            chain = cfg.chain()
+            name = ('n::' if case['ns'] else '') + 'leaf'
+            return dict(x=pl.to_spec(chain[name].params.x), tasks=sorted(chain.tasks))
+        except Exception as e:
+            return dict(error=type(e).__name__, text=str(e)[:160])
+
+    def oracle(self, case, obs):
+        if 'unexpected_exception' in obs:
+            return f'unexpected exception {obs["unexpected_exception"]}: {obs["text"]}'
+        if 'error' in obs:
+            return (f'{case}: a `uses` path / `tasks` entry with placeholders defined in global_vars is not followed: '
+                    f'{obs["error"]}: {obs["text"]}')
+        if obs['x'] != 5:
+            return f'{case}: the task sees x={obs["x"]!r}; the file named by the substituted `uses` path sets x=5'
+        return None
+
+    def nontrivial(self, case, obs):
+        return True
+
+    def key(self, case):
+        return repr(case)
+
+
 class C11(Prop):
     pid = 'C11'
-    suites = [Placeholders(), ConfigData()]
+    suites = [Placeholders(), ConfigData(), UsesPaths()]
     trusted_base = ["Python's re for the single pattern r'{(.*?)}' is modelled by an explicit scanner; "
                     'the correspondence compares them on brace/newline-heavy strings']
     assumptions = ['global_vars values are rendered with str(); attribute-object global_vars use identifier names '
